@@ -14,6 +14,9 @@ WITH_PORT_ARGS = [None, 0, 1, 80, 443, 21, 8080, 65535, 65536, 99999, -1, True, 
 
 
 def gen(params):
+    if params.get("mode") == "frame":
+        yield from gen_frame(params)
+        return
     rnd = random.Random(params.get("seed", 0))
     fields = params["fields"]
     for sc, p, h, ui in itertools.product(SCHEMES, PORTS, HOSTS, USERINFO):
@@ -45,3 +48,21 @@ def gen(params):
     from vlib.gens import progs
     params2 = dict(params, ops=["with_port", "with_scheme", "with_host", "with_user", "origin", "with_path", "join"], encoded_p=0.2)
     yield from progs.gen(params2)
+
+
+def gen_frame(params):
+    """C11 over the same authority grid: every scheme x port spelling x host kind x userinfo, stored canonically (URL(s)) and
+    VERBATIM (URL(s, encoded=True): the netloc text is kept as written, so a port may be spelled '', '080', '+80'), followed by
+    one authority modifier with an acceptable argument -- the frame condition must hold whatever the stored spelling is."""
+    rnd = random.Random(params.get("seed", 0) ^ 0xF2A)
+    fields = params["fields"]
+    mods = ([{"op": "with_port", "v": tv_of(p)} for p in (None, 0, 80, 443, 8080)]
+            + [{"op": "with_user", "v": v} for v in ([], [T("x")], [T("a b")])]
+            + [{"op": "with_password", "v": v} for v in ([], [T("s")], [T("")])]
+            + [{"op": "with_host", "v": T(h)} for h in ("example.org", "::1", "1.2.3.4")]
+            + [{"op": "with_scheme", "v": T(s)} for s in ("http", "https", "x")])
+    for sc, p, h, ui in itertools.product(SCHEMES, PORTS, HOSTS, USERINFO):
+        s = (sc + ":" if sc else "") + "//" + ui + h + ("" if p is None else ":" + p) + "/a"
+        for enc in (False, True):
+            for st in rnd.sample(mods, 2 if enc else 1):
+                yield {"prog": [{"op": "ctor", "s": T(s), "encoded": enc}, dict(st)], "fields": fields}
